@@ -14,7 +14,7 @@
    payloads), so widths and columns are those of the code (`Token::len`,
    `as_bytes().len()`): nothing is abstracted.  [None] = the stage panics. *)
 From Coq Require Import List NArith ZArith Bool Arith.
-From YV Require Import Fmt.Tokens Gen.FmtCats Fmt.Processor.
+From YV Require Import Fmt.Tokens Gen.FmtCats Gen.FmtComments Fmt.Processor.
 Import ListNotations.
 
 (* Token::len() = as_bytes().len(): typed comments and control tokens have length 0 *)
@@ -55,7 +55,10 @@ Fixpoint cstart (line : list N) (i indent tab : nat) : option nat :=
       else Some O
   end.
 Definition strip_line (indent tab : nat) (line : list N) : list N :=
-  match cstart line 0 indent tab with Some k => skipn k line | None => line end.
+  match cstart line 0 indent tab with
+  | Some k => skipn k line
+  | None => if blank_comment_lines_stripped then [] else line   (* Gen/FmtComments.v *)
+  end.
 Definition split_comment_lines (c : list N) (indent tab : nat) : list (list N) :=
   map (strip_line indent tab) (lines_of c).
 
